@@ -62,6 +62,7 @@ const (
 	EvWiden                       // a loop was widened
 	EvPanic                       // a reachable panic
 	EvGlobalStore                 // store into memory reachable from a package-level variable
+	EvBound                       // a run-time bounds check whose operands are not both constants: Term (<|<=) Bound must hold
 )
 
 // Event is one observation.
@@ -77,6 +78,8 @@ type Event struct {
 	Callee string
 	Args   []Val
 	Guard  []Lit
+	Bound  *sym.Term // EvBound: right-hand side
+	Strict bool      // EvBound: Term < Bound (else Term <= Bound)
 }
 
 // Exit is a return or panic of the analysed entry function.
@@ -213,7 +216,7 @@ func (ex *Exec) event(e Event) {
 		}
 	}
 	if ex.curState != nil && e.Guard == nil {
-		e.Guard = ex.curState.Guard
+		e.Guard = append([]Lit(nil), ex.curState.Guard...)
 	}
 	ex.Events = append(ex.Events, e)
 }
